@@ -104,12 +104,13 @@ PLAN = {
         assumptions=["virtual MPI as for C16; boost::mpi::reduce of complex values is the point-to-point tree of the installed Boost 1.83", "the OpenMP loop body has no synchronisation: team members' chunks are run one after another in 3 orders; data races inside the loop body are looked for separately by running the same bodies on 2/4/16 really concurrent threads of a ThreadSanitizer build (a race that needs a particular timing may still escape that pass)"]),
     "C17": dict(
         engine="modelx", technique="sanitizers (ASan+UBSan, recover mode) as oracle over the exhaustive enumerations of the other checks plus a dedicated sweep of the anchored code (ignored symmetries, empty frequency lists, 1x1 blocks, boundary state labels); every report following a case marker is a violation",
-        level_text="every case of the dedicated sweep and of the quick enumerations of C01, C02, C05, C10, C13, C14, C15, C18, C20 is executed on a build instrumented with AddressSanitizer and UndefinedBehaviorSanitizer, and the MPI workflow bodies of C06 on the same build under the default schedule; any report is a violation attributed to the case that was executing",
+        level_text="every case of the dedicated sweep (also, on small models, under valgrind memcheck on the uninstrumented build) and of the quick enumerations of C01, C02, C05, C10, C13, C14, C15, C18, C20 is executed on a build instrumented with AddressSanitizer and UndefinedBehaviorSanitizer, and the MPI workflow bodies of C06 on the same build under the default schedule; any report is a violation attributed to the case that was executing",
         runs=[("san", "hx", "C17", 16, []), ("san", "hx", "C01", 16, []), ("san", "hx", "C14", 16, []), ("san", "hx", "C02", 16, []), ("san", "hx", "C10", 16, []), ("san", "hx", "C13", 16, []),
-              ("san", "hx", "C05", 8, []), ("san", "hx", "C20", 8, []), ("san", "hx", "C18", 8, []), ("san", "hx", "C15", 4, []), ("san", "vx", "C17V", 4, [])],
+              ("san", "hx", "C05", 8, []), ("san", "hx", "C20", 8, []), ("san", "hx", "C18", 8, []), ("san", "hx", "C15", 4, []), ("san", "vx", "C17V", 4, []),
+              ("rel", "hx", "C17M", 16, [], "memcheck"), ("rel", "hx", "C15", 4, [], "memcheck")],
         thorough_extra=[("cplx", "hx", "C17", 16, []), ("cplx", "hx", "C01", 16, []), ("cplx", "hx", "C02", 16, [])],
         sanitizer_is_violation=True, only_own_violations="C17", deadline_quick=1200,
         rule="BFS over generator histories x {ignored, default} partitions x all operator pairs / tuples x {no, empty, non-empty} frequency lists; plus the enumerations of the listed checks; non-trivial = H non-diagonal or degenerate",
-        assumptions=["an over-read that stays inside initialised memory of the same allocation is invisible to the sanitizers and not claimed", "valgrind memcheck pass of DESIGN.md section 7/C17 is not part of the registered commands"]),
+        assumptions=["an over-read that stays inside initialised memory of the same allocation is invisible to the sanitizers and not claimed", "the valgrind memcheck pass (uninitialised-value use, which the sanitizer builds cannot see) covers the dedicated sweep on models with <= 3 single-particle states and the C15 storage enumeration only; reports before the first case marker (MPI start-up) are ignored"]),
 }
 NOT_APPLICABLE = {}
